@@ -163,3 +163,4 @@ Proof. exact (graph_payload K st mode HK T LS idf colf Hok HL Hdata g Hc). Qed.
 Theorem compress_loose_total : exists g0, compress_kmers pay pay_reduce (pay_join mode) st T = Some g0.
 Proof. destruct (compress_c01 pay pay_reduce (pay_join mode) K st HK T Hok Hsym) as [g0 [H _]]. eauto. Qed.
 End FromTable.
+Print Assumptions compress_lgraph_ok.
